@@ -53,6 +53,16 @@ theorem applyOp_len {m : Nat} (hm : m ≠ 0) (tl : TL) (op : Op) (h : LenInv m t
         by_cases hle : tl.maxTracks ≤ tl.tracks.length
         · exact absurd ⟨by rw [h1]; exact hm, hle⟩ hc
         · omega
+  | scheduleAt idx sid qz dl count rwd =>
+    simp only [applyOp]
+    split
+    · exact ⟨h1, h2⟩
+    · rename_i hc
+      refine ⟨h1, ?_⟩
+      simp only [List.length_append, List.length_cons, List.length_take, List.length_drop]
+      by_cases hle : tl.maxTracks ≤ tl.tracks.length
+      · exact absurd ⟨by rw [h1]; exact hm, hle⟩ hc
+      · omega
   | update tid sid qz dl count =>
     simp only [applyOp]; split <;> simp [LenInv, TL.updateTrack, TL.setTrack, length_setFirst', h1, h2]
   | unschedule tid =>
